@@ -20,15 +20,15 @@ func runPolicies(in []int64) []int64 {
 	j.Status.Version = int32(ver)
 	req := jobctl.GoReq("nsp", op)
 	act, delay := job.VerifApplyPolicies(j, &req)
-	if delay != 0 {
-		panic("non-zero delay although every timeout is 0")
+	if delay != 0 && delay != int64(jobctl.DelayD) {
+		panic("unexpected delay")
 	}
 	for i, a := range jobctl.ActionNames {
 		if a == act {
-			return []int64{int64(i)}
+			return []int64{int64(i), vh.B(delay != 0)}
 		}
 	}
-	return []int64{9} // any other action string behaves as "default"
+	return []int64{9, vh.B(delay != 0)} // any other action string behaves as "default"
 }
 
 // ---------- laws ----------
@@ -45,12 +45,18 @@ func laws(sel int, in, got []int64, law func(lsel int, lin []int64, sig string))
 		h, obs := lastHist, lastObs
 		for k, o := range h.Ops {
 			prev, cur := obs[k], obs[k+1]
-			if o.Code != 1 || !cur.FreshBefore || cur.Err {
+			rq := o.Req
+			if o.Code == 14 && cur.Fired != nil && cur.Wrote {
+				rq = *cur.Fired // an expired delayed action that wrote a status: judged like a request with that action
+			} else if o.Code != 1 {
+				continue
+			}
+			if !cur.FreshBefore || cur.Err {
 				continue
 			}
 			w := &jobctl.W{}
 			w.Spec(h.Spec)
-			w.Req(o.Req)
+			w.Req(rq)
 			w.B(cur.FreshBefore)
 			w.B(cur.PgViewBefore)
 			w.Obs(0, prev)
@@ -98,7 +104,25 @@ func genPolicy(r *vh.Rng) jobctl.Policy {
 	default:
 		p.Events = []int64{vh.Pick(r, policyEvents)}
 	}
-	p.Timeout = r.Chance(1, 4)
+	if r.Chance(1, 4) {
+		p.Timeout = 1
+	}
+	return p
+}
+
+// a policy with a real timeout: the action is delayed
+func genDelayedPolicy(r *vh.Rng) jobctl.Policy {
+	p := jobctl.Policy{Action: int64(vh.Pick(r, []int{2, 2, 1, 6, 7, 3, 4, 8, 0})), Timeout: 2}
+	switch r.Intn(5) {
+	case 0:
+		p.Events = []int64{2} // PodFailed
+	case 1:
+		p.Events = []int64{3} // PodEvicted
+	case 2:
+		p.Exit = i64p(int64(vh.Pick(r, []int{1, 2, 137})))
+	default:
+		p.Events = []int64{4} // PodPending
+	}
 	return p
 }
 
@@ -224,6 +248,15 @@ func genInitial(r *vh.Rng, s jobctl.Spec, h *jobctl.History) {
 
 func genHistory(r *vh.Rng, stream string) (jobctl.History, bool) {
 	s := genSpec(r)
+	if stream == "delayed" {
+		// at least one policy with a real timeout, on the job or on a task
+		s.Policies = append([]jobctl.Policy{genDelayedPolicy(r)}, s.Policies...)
+		for k := range s.Tasks {
+			if r.Chance(1, 2) {
+				s.Tasks[k].Policies = append([]jobctl.Policy{genDelayedPolicy(r)}, s.Tasks[k].Policies...)
+			}
+		}
+	}
 	h := jobctl.History{Spec: s, Status: jobctl.Status{TscNil: true}}
 	fresh := stream != "stale"
 	if stream == "restart" && r.Chance(1, 8) {
@@ -238,6 +271,28 @@ func genHistory(r *vh.Rng, stream string) (jobctl.History, bool) {
 	for len(h.Ops) < n {
 		var o jobctl.Op
 		x := r.Intn(100)
+		if stream == "delayed" && r.Chance(1, 4) {
+			// pod events that arm / cancel delayed actions, timers expiring, the job replaced under them
+			switch r.Intn(10) {
+			case 0, 1, 2:
+				q := genReq(r, s, ver, false)
+				q.Event = int64(vh.Pick(r, []int{4, 4, 2, 3, 5}))
+				q.Action = nil
+				q.UidMatch = int64(vh.Pick(r, []int{1, 2}))
+				q.Version = ver + 1 // not outdated whatever the kills did
+				h.Ops = append(h.Ops, jobctl.Op{Code: 1, Req: q})
+				reqs++
+			case 3, 4, 5, 6:
+				h.Ops = append(h.Ops, jobctl.Op{Code: 14})
+			case 7:
+				h.Ops = append(h.Ops, jobctl.Op{Code: 11, Spec: s}, jobctl.Op{Code: 6})
+			case 8:
+				h.Ops = append(h.Ops, jobctl.Op{Code: 10}, jobctl.Op{Code: 7}, jobctl.Op{Code: 6}, jobctl.Op{Code: 8})
+			default:
+				h.Ops = append(h.Ops, jobctl.Op{Code: 14}, jobctl.Op{Code: 14})
+			}
+			continue
+		}
 		switch {
 		case x < 40:
 			o = jobctl.Op{Code: 1, Req: genReq(r, s, ver, stream == "faults" && r.Chance(1, 3))}
@@ -295,7 +350,7 @@ func descHistory(h jobctl.History) any {
 }
 
 func gen(rng *vh.Rng, n int, emit func(id string, sel int, in []int64, kind string, nontrivial bool, desc any)) {
-	streams := []string{"fresh", "midlife", "stale", "faults", "commands", "midlife", "faults", "restart"}
+	streams := []string{"fresh", "midlife", "stale", "faults", "commands", "midlife", "faults", "restart", "delayed", "delayed"}
 	for i := 0; i < n; i++ {
 		r := rng.Fork()
 		stream := streams[i%len(streams)]
